@@ -3,8 +3,9 @@ Facts about the TRXD codec model and the hopping model that the world proofs (C0
   * `RxMsg.gen_msg` returns octets or raises ValueError, nothing else (for every object state);
   * `TxMsg.trans` cannot fail on a byte-valued burst; what `TxMsg.parse_msg` leaves in the object;
   * `HoppingParams.resolve` is total on every object `__init__` accepted (from Lemmas/Hopping).
-The codec statements are local to keep the world proofs independent of the codec worker's lemma
-names; they can be replaced by the corresponding theorems of Lemmas/Trxd at integration.
+The codec statements are proved here against the draft Model/Trxd.lean of this clone; with the
+codec worker's final Model/Trxd.lean + Lemmas/Trxd.lean use docs/WorldCodec_after_trxd_merge.lean
+(same three statements, derived from validate_iff / validate_err / genMsg_ok).
 -/
 import OsmoVerif.Model.Trxd
 import OsmoVerif.Lemmas.Hopping
